@@ -189,7 +189,12 @@ def run_case(rec, case):
         # info_via="handler": the names carry the start only, the real coverage (wider) comes from the
         # file handler - the harness' table answers for it
         widen = rng_for(0, "widen", len(files))
-        files = [dict(f, t1=f["t1"] + dt.timedelta(seconds=widen.choice([0, 600, 3600, 7200]))) for f in files]
+        # (a file lasts no longer than one period of the finest directory level - the statement's
+        # precondition on the layout)
+        cap = layout.max_duration() if layout.finest else dt.timedelta(days=1)
+        files = [dict(f, t1=f["t0"] + min(cap, (f["t1"] - f["t0"])
+                                          + dt.timedelta(seconds=widen.choice([0, 600, 3600, 7200]))))
+                 for f in files]
         table = {}
 
         def info_fn(file_info):
